@@ -145,7 +145,7 @@ pub fn ml_item(rng: &mut ChaCha20Rng, max_nv: usize) -> Result<MlItem, (String, 
     let (ck, vk) = guard(|| MultilinearPC::<E>::trim(&pp, nv)).map_err(|p| ("trim".to_string(), Out::Panic(p), desc.clone()))?;
     let poly = ml_poly::<Fr>(nv, shape, rng);
     let comm = guard(|| MultilinearPC::<E>::commit(&ck, &poly)).map_err(|p| ("commit".to_string(), Out::Panic(p), desc.clone()))?;
-    let z: Vec<Fr> = (0..nv).map(|_| Fr::rand(rng)).collect();
+    let z: Vec<Fr> = (0..nv).map(|_| crate::schemes::pt_fe(rng)).collect();
     let v = poly.evaluate(&z);
     let proof = guard(|| MultilinearPC::<E>::open(&ck, &poly, &z)).map_err(|p| ("open".to_string(), Out::Panic(p), desc.clone()))?;
     Ok(MlItem { nv, poly, ck, vk, comm, z, v, proof, desc })
@@ -213,7 +213,7 @@ fn stream_c01(ctx: &mut Ctx, rng: &mut ChaCha20Rng) {
         }
     };
     let (poly, shape) = stream_poly(&w, rng);
-    let alpha = Fr::rand(rng);
+    let alpha = crate::schemes::pt_fe(rng);
     let buf = [1usize, 2, 3, 7, 64, 1 << 20][below(rng, 6)];
     let desc = json!({"max_degree": w.max_degree, "max_points": w.max_pts, "len": poly.len(), "shape": format!("{:?}", shape), "msm_buffer": buf});
     // time prover
@@ -254,7 +254,7 @@ fn stream_c01(ctx: &mut Ctx, rng: &mut ChaCha20Rng) {
     let npts = range(rng, 1, w.max_pts);
     let mut pts: Vec<Fr> = Vec::new();
     while pts.len() < npts {
-        let x = Fr::rand(rng);
+        let x = crate::schemes::pt_fe(rng);
         if !pts.contains(&x) {
             pts.push(x);
         }
